@@ -593,10 +593,12 @@ class OrderedRingBuffer(Generic[FloatArray]):
 
         # Round towards the closer number and towards the even one in case of
         # equal distance
+        # (compare twice the remainder with the period: half a period is not
+        # representable for periods with an odd number of microseconds)
         if remainder != timedelta(0) and (
-            self._sampling_period / 2 == remainder
+            self._sampling_period == 2 * remainder
             and num_samples % 2 != 0
-            or self._sampling_period / 2 < remainder
+            or self._sampling_period < 2 * remainder
         ):
             num_samples += 1
 
